@@ -156,6 +156,13 @@ func genC19(t *rapid.T) *C19Case {
 		db := workloadDocs(&World{}, &b)[0]
 		yb := strings.Replace(docYAML(db), "name: "+ownedPodName(&b, 0), "name: "+ownedPodName(&b, 1), 1)
 		inject = []string{docYAML(da), yb}
+		if a.Kind != "ReplicaSet" && rapid.IntRange(0, 2).Draw(t, "ownermore") == 0 {
+			// more pods of the owner that agree with the first one: the deviating pod may be the third or fourth in the input
+			nm := rapid.IntRange(1, 2).Draw(t, "ownermoren")
+			for k := 0; k < nm; k++ {
+				inject = append(inject, strings.Replace(docYAML(da), "name: "+ownedPodName(&a, 0), "name: "+ownedPodName(&a, 2+k), 1))
+			}
+		}
 		c.Names = []string{"own"}
 	}
 	if (c.Kind == "dupnp" || c.Kind == "dupanpname" || c.Kind == "twobanp") && len(inject) == 2 && rapid.IntRange(0, 2).Draw(t, "sameuid") == 0 {
